@@ -61,7 +61,7 @@ func c16NewEnv(dir string, maxA, maxB int) (*c16Env, error) {
 		RpcTimeout:         5,
 		RpcRetries:         1,
 		Servers:            []string{"localhost:21600"},
-		ShardManager:       cluster.ShardManagerConfig{RootDir: dir, ShardTimeout: 300, MaxCacheSize: -1},
+		ShardManager:       cluster.ShardManagerConfig{RootDir: filepath.Join(dir, "shard-root"), ShardTimeout: 300, MaxCacheSize: -1}, // not the node root
 		MaxShardSize:       1 << 30,
 		MaxShardPointCount: 3,
 		MaxSearchLimit:     100,
@@ -232,7 +232,7 @@ func (e *c16Env) view(u *c16User) *c16View {
 		v.points[c] = pts
 	}
 	// the directory tree below userCollections/<id>
-	base := filepath.Join(e.root, cluster.USERCOLSDIR, u.id)
+	base := filepath.Join(e.root, "shard-root", cluster.USERCOLSDIR, u.id)
 	_ = filepath.WalkDir(base, func(p string, d fs.DirEntry, err error) error {
 		if err != nil {
 			return nil
